@@ -434,6 +434,34 @@ fn unescape(line: &[u8]) -> Vec<u8> {
     out
 }
 
+/// The messages the properties pin down, from a list of unescaped wire lines: `ready`, `stdout:`
+/// and `ioport:` lines; message kinds the properties do not mention (and `sync:`, which depends on
+/// pacing-independent totals checked by C13) are left out, and so are port announcements that repeat
+/// the value announced last for the port (0 after reset) - C16 allows but does not require them.
+fn pinned_messages(lines: &[Vec<u8>]) -> Vec<Vec<u8>> {
+    let mut last = [0u32; 16];
+    let mut out = vec![];
+    for l in lines {
+        if l == b"ready" || l.starts_with(b"stdout:") {
+            out.push(l.clone());
+        } else if l.starts_with(b"ioport:") {
+            let f: Vec<&[u8]> = l.split(|b| *b == b':').collect();
+            if f.len() >= 3 {
+                let p = usize::from_str_radix(&String::from_utf8_lossy(f[1]), 16).unwrap_or(99);
+                let v = u32::from_str_radix(&String::from_utf8_lossy(f[2]), 16).unwrap_or(0xffff);
+                if p < 16 {
+                    if last[p] == v {
+                        continue;
+                    }
+                    last[p] = v;
+                }
+            }
+            out.push(l.clone());
+        }
+    }
+    out
+}
+
 pub fn e2e_session(rep: &mut Report, seed: u64, verbose: bool) -> bool {
     e2e_session_gap(rep, seed, verbose, 0)
 }
@@ -595,7 +623,11 @@ pub fn e2e_session_gap(rep: &mut Report, seed: u64, verbose: bool, gap_ms: u64) 
     }
     // wait (bounded) until that many non-sync lines arrived
     let deadline = std::time::Instant::now() + std::time::Duration::from_secs(20);
-    let count_lines = |t: &Vec<u8>| t.split(|b| *b == b'\n').filter(|l| !l.is_empty() && !l.starts_with(b"sync:")).count();
+    let expected = pinned_messages(&expected);
+    let count_lines = |t: &Vec<u8>| {
+        let ls: Vec<Vec<u8>> = t.split(|b| *b == b'\n').filter(|l| !l.is_empty()).map(|l| unescape(l)).collect();
+        pinned_messages(&ls).len()
+    };
     while count_lines(&transcript) < expected.len() && std::time::Instant::now() < deadline {
         pump(&mut stream, &mut transcript);
     }
@@ -659,7 +691,7 @@ pub fn e2e_session_gap(rep: &mut Report, seed: u64, verbose: bool, gap_ms: u64) 
         bad = true;
         rep.finding("e2e|unterminated-line", || format!("the transcript does not end with a newline (seed {})", seed), || replay.clone());
     }
-    let got: Vec<Vec<u8>> = lines.iter().filter(|l| !l.starts_with(b"sync:")).map(|l| unescape(l)).collect();
+    let got: Vec<Vec<u8>> = pinned_messages(&lines.iter().map(|l| unescape(l)).collect::<Vec<_>>());
     rep.count("e2e_messages_checked", got.len() as u64);
     for (i, want) in expected.iter().enumerate() {
         let ok = match got.get(i) {
